@@ -363,9 +363,9 @@ class FastSerialCommunicator(LogMixin):
                 if self.machine.is_shutting_down:
                     return
 
+                # Line noise. Drop this message and keep decoding, the next <CR> resynchronises us.
                 self.log.warning("Interference / bad data received: %s", msg)
-                if not self.ignore_decode_errors:
-                    raise
+                continue
 
             if self.port_debug:
                 self.log.info("<<<< %s", msg)
@@ -379,7 +379,13 @@ class FastSerialCommunicator(LogMixin):
 
         msg_header = msg[:3]
         if msg_header in self.message_processors:
-            self.message_processors[msg_header](msg[3:])
+            try:
+                self.message_processors[msg_header](msg[3:])
+            except (ValueError, TypeError, IndexError, KeyError) as e:
+                # The payload does not have the shape this message type must have, i.e. line noise.
+                # Drop the message instead of taking down the reader (and with it MPF).
+                self.log.warning("Ignoring malformed message %s: %s", msg, e)
+                return
             self.no_response_waiting.set()
 
         # if the msg_header matches the first chars of the self.pause_sending_until, unpause sending
